@@ -352,6 +352,32 @@ def monitor_single_start(w: World) -> tuple[str, Any] | None:
     return None
 
 
+def monitor_single_continuation(w: World) -> tuple[str, Any] | None:
+    """C02/C04: a stage is planned once per arming - the StartTask of a task is durably queued at
+    most once per NOT_STARTED->RUNNING of its stage (only meaningful in runs without crashes and
+    recovery sweeps, which legitimately re-queue)."""
+    starts: Counter = Counter()
+    for row in w.audit():
+        if row["tbl"] == "stage" and row["old"] == "NOT_STARTED" and row["new"] == "RUNNING":
+            starts[row["id"]] += 1
+    pushed: Counter = Counter()
+    stage_of: dict[str, str] = {}
+    for row in w.qlog():
+        if row["op"] == "ins" and row["q"] == "q" and row["mtype"] == "StartTask":
+            try:
+                p = json.loads(row["payload"])
+            except Exception:
+                continue
+            pushed[p.get("task_id")] += 1
+            stage_of[p.get("task_id")] = p.get("stage_id")
+    for tid, n in pushed.items():
+        sid = stage_of[tid]
+        if n > max(1, starts[sid]):
+            ref = next((r for r, i in w.refs.items() if i == sid), sid)
+            return ("StartTask_queued_twice_for_one_start/%s" % ref, {"stage": ref, "task_id": tid, "StartTask_pushed": n, "stage_starts": starts[sid]})
+    return None
+
+
 def monitor_no_rerun_of_recorded(w: World) -> tuple[str, Any] | None:
     """C02: a task whose result has been recorded is never executed again: at execution time the
     durable task row must be RUNNING (read on a second connection by the harness task)."""
@@ -477,6 +503,7 @@ MONITORS = {
     "C02": lambda w, spec: monitor_single_start(w) or monitor_no_rerun_of_recorded(w),
     "C03": lambda w, spec: monitor_dependencies(w, spec),
     "C16": lambda w, spec: monitor_dataflow(w, spec),
+    "C02x": lambda w, spec: monitor_single_continuation(w),
 }
 
 
